@@ -236,6 +236,10 @@ def _run_segment(seg: Dict[str, Any], out: Dict[str, Any]) -> None:
                 kwargs["dds_stages"] = [getattr(dds.ProcessingStage, x[1:]) if isinstance(x, str) and x.startswith("@") else x
                                         for x in kwargs["dds_stages"]]
             args = list(st.get("args") or [])
+            gfile = None
+            if kwargs.get("dds_export_graph") is True:
+                gfile = os.path.join(root, "graph_%d.dot" % len(out["steps"]))
+                kwargs["dds_export_graph"] = gfile
             try:
                 if st["style"] == "direct":
                     r = fun(*args, **kwargs)
@@ -254,6 +258,8 @@ def _run_segment(seg: Dict[str, Any], out: Dict[str, Any]) -> None:
                     obs["err"]["injected"] = any(e is x for x in L.FAIL.values())
             obs["log"] = list(L.LOG) if L is not None else []
             obs["ops"] = list(ops)
+            if gfile is not None:
+                obs["graph"] = _parse_dot(gfile)
             if mode != "stub":
                 import dds._api as api
                 obs["ctx_clean"] = api._eval_ctx is None
@@ -268,6 +274,19 @@ def _run_segment(seg: Dict[str, Any], out: Dict[str, Any]) -> None:
         else:
             raise ValueError(op)
         out["steps"].append(obs)
+
+
+def _parse_dot(path: str) -> Dict[str, Any]:
+    if not os.path.exists(path):
+        return {"missing": True}
+    import pydotplus
+    g = pydotplus.graph_from_dot_file(path)
+
+    def nm(x: str) -> str:
+        return x.strip('"')
+    nodes = sorted(nm(n.get_name()) for n in g.get_nodes() if nm(n.get_name()) not in ("node", "edge", "graph") and nm(n.get_name()).replace("\\n", "").strip())
+    edges = sorted([nm(e.get_source()), nm(e.get_destination()), nm(e.get_style() or "solid")] for e in g.get_edges())
+    return {"nodes": nodes, "edges": edges}
 
 
 def _make_exc(cls: str, name: str) -> BaseException:
